@@ -11,22 +11,25 @@ for i in ids:
     if not os.path.isdir(d) or not os.path.exists(os.path.join(d, "patch.diff")):
         continue
     meta = json.load(open(os.path.join(d, "meta.json")))
-    st = subprocess.run(["git", "-C", "/repo", "status", "--porcelain"], capture_output=True, text=True).stdout.strip()
-    if st:
-        print("refusing: /repo has uncommitted changes"); sys.exit(2)
-    a = subprocess.run(["git", "-C", "/repo", "apply", os.path.join(d, "patch.diff")], capture_output=True, text=True)
+    # a scratch worktree of /repo's HEAD: /repo itself is never touched
+    SR = "/tmp/seedrepo"
+    if not os.path.isdir(SR):
+        subprocess.run(["git", "-C", "/repo", "worktree", "add", "--detach", SR, "HEAD"], capture_output=True)
+    subprocess.run(["git", "-C", SR, "checkout", "--detach", subprocess.run(["git", "-C", "/repo", "rev-parse", "HEAD"], capture_output=True, text=True).stdout.strip()], capture_output=True)
+    subprocess.run(["git", "-C", SR, "checkout", "--", "."], capture_output=True)
+    a = subprocess.run(["git", "-C", SR, "apply", os.path.join(d, "patch.diff")], capture_output=True, text=True)
     if a.returncode != 0:
         print(i, "patch does not apply:", a.stderr[:300]); continue
     res = {"id": i, "checks": []}
     try:
         for prop in meta.get("properties", []):
             t0 = time.time()
-            p = subprocess.run([os.path.join(ROOT, "check"), prop, "--tier", "quick"], cwd=ROOT, capture_output=True, text=True)
+            env = dict(os.environ); env["VERIF_REPO"] = SR; env["VERIF_NO_EVIDENCE"] = "1"
+            p = subprocess.run([os.path.join(ROOT, "check"), prop, "--tier", "quick"], cwd=ROOT, capture_output=True, text=True, env=env)
             lines = [l for l in p.stdout.splitlines() if l.startswith("VIOLATION") or l.startswith("KNOWN-FINDING")]
             res["checks"].append({"property": prop, "exit": p.returncode, "lines": lines, "wall_s": round(time.time() - t0)})
             print(i, prop, "exit", p.returncode, lines[:2])
     finally:
-        subprocess.run(["git", "-C", "/repo", "apply", "-R", os.path.join(d, "patch.diff")])
-        subprocess.run(["git", "-C", "/repo", "checkout", "--", "."])
+        subprocess.run(["git", "-C", SR, "checkout", "--", "."])
     res["detected"] = all(c["exit"] == 1 and any(l.startswith("VIOLATION") for l in c["lines"]) for c in res["checks"])
     json.dump(res, open(os.path.join(d, "result.json"), "w"), indent=1)
